@@ -2,6 +2,7 @@ use super::*;
 use crate::construction::enablers::advance_departure_time;
 use crate::construction::heuristics::InsertionContext;
 use rosomaxa::HeuristicSolution;
+use std::cmp::Ordering;
 
 /// Provides way to reduce waiting time by advancing departure time.
 #[derive(Default)]
@@ -24,6 +25,8 @@ impl HeuristicSolutionProcessing for AdvanceDeparture {
 
         problem.goal.accept_solution_state(&mut insertion_ctx.solution);
 
-        insertion_ctx
+        // NOTE: less waiting time is not an improvement for every goal (e.g. when tour durations are balanced
+        // or arrival time is minimized in the first place), so keep the solution as it was ranked then
+        if problem.goal.total_order(&insertion_ctx, &solution) == Ordering::Greater { solution } else { insertion_ctx }
     }
 }
